@@ -259,16 +259,26 @@ pub fn run(case: &Value, ctx: &Ctx) -> Outcome {
     if verbose {
         args.insert(1, "-vv".into());
     }
+    // quiet runs: the logging level must not change what is computed, what fails, or what is written
+    let quiet = !verbose && id % 7 == 3;
+    if quiet {
+        args.insert(1, if id % 2 == 0 { "-q".into() } else { "-qq".into() });
+    }
     let a: Vec<&str> = args.iter().map(|s| s.as_str()).collect();
     let r = cli::sfs(ctx, &a, if via_stdin { Some(text.as_bytes()) } else { None });
-    check_cli(&mut out, case, &r, &args, precision, "vcf", verbose);
+    check_cli(&mut out, case, &r, &args, precision, if quiet { "vcf-quiet" } else { "vcf" }, verbose);
 
     // the same records as BCF (raw or BGZF-compressed), when the check asks for it
     let also = std::env::var("CREATE_ALSO").unwrap_or_default();
     if also.contains("bcf") {
         {
             let raw = gen::own_bcf(&cols, &recs);
-            let (label, bytes) = if id % 2 == 0 { ("bcf-raw", raw) } else { ("bcf-bgzf", gen::bgzf_chunks(&raw, 200 + (id % 1000) as usize)) };
+            let (label, bytes) = if id % 2 == 0 { ("bcf-raw", raw) } else {
+                // an empty leading BGZF block is legal (e.g. `cat empty.gz body.bcf`)
+                let mut b = if id % 3 == 0 { gen::bgzf_block(&[]) } else { Vec::new() };
+                b.extend(gen::bgzf_chunks(&raw, 200 + (id % 1000) as usize));
+                ("bcf-bgzf", b)
+            };
             let bpath = cli::scratch(ctx, &format!("create_{id:016x}.bcf"), &bytes);
             let mut bargs: Vec<String> = args.iter().filter(|x| **x != path).cloned().collect();
             let stdin = id % 4 == 2;
@@ -277,7 +287,8 @@ pub fn run(case: &Value, ctx: &Ctx) -> Outcome {
             }
             let ba: Vec<&str> = bargs.iter().map(|s| s.as_str()).collect();
             let rb = cli::sfs(ctx, &ba, if stdin { Some(&bytes) } else { None });
-            check_cli(&mut out, case, &rb, &bargs, precision, label, verbose);
+            let blabel = format!("{label}{}", if quiet { "-quiet" } else { "" });
+            check_cli(&mut out, case, &rb, &bargs, precision, &blabel, verbose);
             let _ = std::fs::remove_file(&bpath);
             out.tag(format!("container:{label}"));
         }
@@ -340,7 +351,8 @@ fn check_cli(out: &mut Outcome, case: &Value, r: &cli::Run, args: &[String], pre
                     Some((a.parse().ok()?, b.parse().ok()?))
                 })
                 .collect();
-            if skipped == 0 {
+            let quiet = label.ends_with("-quiet");
+            if skipped == 0 || quiet {
                 out.check(summary.is_empty(), || format!("create/cli-{label}/skip-summary-spurious"), || ctxd(r));
             } else {
                 out.check(summary == vec![(skipped, sites)], || format!("create/cli-{label}/skip-summary"), || json!({"got": summary, "want": [skipped, sites], "stderr": r.stderr}));
@@ -348,7 +360,7 @@ fn check_cli(out: &mut Outcome, case: &Value, r: &cli::Run, args: &[String], pre
             // which skipped sites are announced: the first one by default, all of them from -v on
             {
                 let key = if verbose { "announced_verbose" } else { "announced_default" };
-                let want_sites: Vec<String> = case[key].as_array().map(|a| a.iter().map(|x| x.as_str().unwrap().to_string()).collect()).unwrap_or_default();
+                let want_sites: Vec<String> = if quiet { Vec::new() } else { case[key].as_array().map(|a| a.iter().map(|x| x.as_str().unwrap().to_string()).collect()).unwrap_or_default() };
                 let got_sites: Vec<String> = r.stderr.lines().filter_map(|l| {
                     let i = l.find("Skipping site '")?;
                     let rest = &l[i + 15..];
